@@ -143,6 +143,42 @@ def sparql_focus(cases, limit):
     return {"sparql_focus_cases": n}, fails, []
 
 
+def bare_shapes_family(rng, n):
+    """shapes that are recognised as shapes ONLY through one target declaration: untyped, without any built-in constraint parameter (their
+    constraint is a custom SPARQL-based component that always fails), not referenced by any other shape - one target kind each; the focus
+    nodes reported are those the declaration selects"""
+    import rdflib
+    from rdflib import URIRef, Literal, RDF
+    from ..enc import EX
+    stats, fails = {"bare_shape_cases": 0}, []
+    TTL = """@prefix sh: <http://www.w3.org/ns/shacl#> . @prefix ex: <http://ex.org/> . @prefix owl: <http://www.w3.org/2002/07/owl#> . @prefix xsd: <http://www.w3.org/2001/XMLSchema#> .
+ex:prefixes a owl:Ontology ; sh:declare [ sh:prefix "ex" ; sh:namespace "http://ex.org/"^^xsd:anyURI ] .
+ex:AlwaysFails a sh:ConstraintComponent ; sh:parameter [ sh:path ex:never ] ; sh:validator [ a sh:SPARQLAskValidator ; sh:prefixes ex:prefixes ; sh:ask "ASK { FILTER (!bound($value)) }" ] .
+ex:ByNode ex:never true ; sh:targetNode %(nodes)s .
+ex:ByClass ex:never true ; sh:targetClass ex:C0 .
+ex:BySubjects ex:never true ; sh:targetSubjectsOf ex:p .
+ex:ByObjects ex:never true ; sh:targetObjectsOf ex:p .
+"""
+    for _ in range(n):
+        data, nodes, lits = S.gen_typed_data(rng, n_iri=rng.randint(2, 4), n_bn=rng.randint(0, 1), n_lit=1, n_triples=rng.randint(4, 10))
+        iris = [x for x in nodes if isinstance(x, URIRef)]
+        tn = rng.sample(iris, rng.randint(1, len(iris))) + ([Literal("lit")] if rng.random() < 0.5 else [])
+        sg = rdflib.Graph().parse(data=TTL % {"nodes": ", ".join(x.n3() for x in tn)}, format="turtle")
+        o = S.run_validate(data, sg)
+        stats["bare_shape_cases"] += 1
+        want = {EX.ByNode: set(tn), EX.ByClass: {r_[0] for r_ in data.query("SELECT DISTINCT ?x WHERE { ?x <http://www.w3.org/1999/02/22-rdf-syntax-ns#type>/<http://www.w3.org/2000/01/rdf-schema#subClassOf>* <http://ex.org/C0> }")}, EX.BySubjects: set(data.subjects(EX.p, None)), EX.ByObjects: set(data.objects(None, EX.p))}
+        if o[0] != "ok":
+            fails.append({"what": "validate() over shapes recognised only by their target declaration failed: %r" % (o[:3],), "shapes_ttl": TTL})
+            continue
+        for sh_, w in want.items():
+            got = {r[0] for r in o[2] if r[3] == sh_}
+            if got != w:
+                fails.append({"what": "a shape that is a shape only by virtue of its target declaration (%s) validates other focus nodes than the declaration selects" % sh_.n3(),
+                              "reported": sorted(x.n3() for x in got), "expected": sorted(x.n3() for x in w), "data_nt": sorted(" ".join(x.n3() for x in t) for t in data)})
+                break
+    return stats, fails, []
+
+
 def main(tier, seed, replay=None):
     rng = F.rng_for(seed, PROP)
     cases = [gen_case(rng) for _ in range(350 if tier == "quick" else 6000)]
@@ -161,10 +197,11 @@ def main(tier, seed, replay=None):
 
     return EC.standard_main(
         PROP, ["Props/C02.v"], tier, seed, cases,
-        rule="case = 1-4 shapes with 0-3 declarations of each of the five target kinds (implicit class targets through rdfs:Class, owl:Class and one- and two-step metaclasses; explicitly or implicitly typed shapes) x data with subclass chains, cycles, diamonds, literal and blank-node objects, absent target nodes; each shape carries sh:in () so sh:focusNode enumerates the focus set; validate() compared with the model end to end and Shape.focus_nodes compared with the model's focus_nodes directly; Tie A for closure.py: transitive_subjects / transitive_objects on random chains (up to 1500 long in the thorough tier), diamonds, cycles and random graphs = interpreter run of the generated programs (exact list, rdflib's neighbour order) = independent reachability = the same triples in 3 other insertion orders; sparql_mode: Shape.focus_nodes_sparql = Shape.focus_nodes for every shape (rdflib's two listed engine defects corrected in-process)",
+        rule="case = 1-4 shapes with 0-3 declarations of each of the five target kinds (implicit class targets through rdfs:Class, owl:Class and one- and two-step metaclasses; explicitly or implicitly typed shapes) x data with subclass chains, cycles, diamonds, literal and blank-node objects, absent target nodes; each shape carries sh:in () so sh:focusNode enumerates the focus set; validate() compared with the model end to end and Shape.focus_nodes compared with the model's focus_nodes directly; Tie A for closure.py: transitive_subjects / transitive_objects on random chains (up to 1500 long in the thorough tier), diamonds, cycles and random graphs = interpreter run of the generated programs (exact list, rdflib's neighbour order) = independent reachability = the same triples in 3 other insertion orders; shapes recognised only through one target declaration (untyped, a custom component as only constraint) x the four explicit target kinds; sparql_mode: Shape.focus_nodes_sparql = Shape.focus_nodes for every shape (rdflib's two listed engine defects corrected in-process)",
         what="focus nodes differ from the target semantics (model, Props.C02)",
         metamorphic=meta_and_direct, translators=["t4"],
         extra_checks=lambda: combine(CC.run(F.rng_for(seed, PROP + "/closure"), 120 if tier == "quick" else 1500, big=tier != "quick"),
-                                     sparql_focus(cases, 200 if tier == "quick" else 2500)),
+                                     sparql_focus(cases, 200 if tier == "quick" else 2500),
+                                     bare_shapes_family(F.rng_for(seed, PROP + "/bare"), 20 if tier == "quick" else 300)),
         extra_assumptions=["translator/t4.py (fail-closed translation of pyshacl/rdfutil/closure.py into the work-list language of coq/Closure/Worklist.v; rdflib's Graph.subjects / Graph.objects are taken to enumerate exactly the matching triples' terms, each once, in some order)"],
     )
